@@ -11,6 +11,7 @@ import copy
 import random
 import re
 
+from sim.runner import H
 from sim import child, gen
 
 ID = 'C14'
@@ -439,7 +440,7 @@ def explore(subseed, cfg):
         if r['fired'] or group != 'baseline':
             sig = (r['kind'], r['exit'], tuple((e[1], e[2], e[3]) for e in r['events']),
                    tuple(f['kind'] for f in r['fired']), group.split(':')[0] if not r['fired'] else '')
-            out['distinct'].add(hash(sig) & 0xFFFFFFFFFFFF)
+            out['distinct'].add(H(sig) & 0xFFFFFFFFFFFF)
         for vv in res['violations']:
             out['violations'].append({'case': c, 'class': vv, 'group': group})
         # probes
